@@ -7,6 +7,9 @@ package json
 
 import (
 	"encoding/json"
+	"fmt"
+	"reflect"
+	"strings"
 )
 
 // MarshalWithCustomFields marshals value merged with custom fields defined in the map into JSON bytes.
@@ -24,7 +27,12 @@ func MarshalWithCustomFields(v interface{}, cf map[string]interface{}) ([]byte, 
 // UnmarshalWithCustomFields unmarshals JSON into value v and puts all JSON fields which do not belong to value
 // into custom fields map cf.
 func UnmarshalWithCustomFields(data []byte, v interface{}, cf map[string]interface{}) error {
-	err := json.Unmarshal(data, v)
+	err := refuseAmbiguousMembers(data, v)
+	if err != nil {
+		return err
+	}
+
+	err = json.Unmarshal(data, v)
 	if err != nil {
 		return err
 	}
@@ -54,6 +62,48 @@ func UnmarshalWithCustomFields(data []byte, v interface{}, cf map[string]interfa
 	for k, v := range af {
 		if _, ok := vf[k]; !ok {
 			cf[k] = v
+		}
+	}
+
+	return nil
+}
+
+// refuseAmbiguousMembers refuses a JSON object in which two members match the same member of the value. encoding/json
+// matches object members to struct fields case-insensitively and the last match wins, JSON-LD terms are case sensitive:
+// "Issuer" next to "issuer" is an undefined term that no signature covers, and it would replace the signed issuer in the
+// decoded value.
+func refuseAmbiguousMembers(data []byte, v interface{}) error {
+	t := reflect.TypeOf(v)
+	for t != nil && t.Kind() == reflect.Ptr {
+		t = t.Elem()
+	}
+
+	if t == nil || t.Kind() != reflect.Struct {
+		return nil
+	}
+
+	var members map[string]json.RawMessage
+
+	if err := json.Unmarshal(data, &members); err != nil {
+		return nil //nolint:nilerr // not an object: left to the decoder of the value
+	}
+
+	for i := 0; i < t.NumField(); i++ {
+		name := strings.Split(t.Field(i).Tag.Get("json"), ",")[0]
+		if name == "" || name == "-" {
+			continue
+		}
+
+		matches := 0
+
+		for k := range members {
+			if strings.EqualFold(k, name) {
+				matches++
+			}
+		}
+
+		if matches > 1 {
+			return fmt.Errorf("JSON members that differ only by case are ambiguous: %q", name)
 		}
 	}
 
